@@ -155,5 +155,43 @@ CLAIMED.update({
             "DESIGN.md 3 (C04), 9"),
 })
 
+E2E = ("the orchestration methods are verified over an assumed transport for a finite set of concrete request lists (names, indices, counts; "
+       "listed in the evidence) with every reply status and all reply data symbolic, on one representative well-formed tag database "
+       "(atomic, array, BOOL array, string, UDT with packed BOOL and hidden host member, program-scoped tag); the pieces in between are "
+       "proved for all values: ")
+CLAIMED.update({
+    "C01": ("proof", E2E + "request parsing incl. BOOL-array index -> DWORD arithmetic for every index / count, tag request paths (C09), read and "
+            "fragmented-read message layouts, reply demultiplexing (C13), parse_read_reply for atomic / array / BOOL-array / string / UDT, "
+            "StructTag and FixedSizeString decoding for all images, fragment reassembly (C04), bit and BOOL-range extraction. What is NOT "
+            "covered: arbitrary tag databases (only the representative one and the generic layout instances) and request lists beyond the listed ones",
+            "modular contracts + end-to-end contracts over symbolic replies (pyvc + z3)", "DESIGN.md 3 (C01), 9"),
+    "C02": ("proof", E2E + "encode_value (alignment, truncation, too-short lists, scalars), write / fragmented-write / multi-service message layouts, "
+            "read-modify-write masks exactly as wide as the tag for every bit with a lemma that the target's (old | or) & and changes exactly the "
+            "addressed bits, message assembled once, StructTag / FixedSizeString encoders (truncation to capacity), fragment tiling (C04). "
+            "Not covered: arbitrary databases / request lists beyond the listed ones; the target's memory model is the assumed rule, not a device",
+            "modular contracts + lemmas over the assumed target rule (pyvc + z3)", "DESIGN.md 3 (C02), 9"),
+    "C03": ("proof", E2E + "Tag truthiness for all values; one result per request in request order incl. duplicates, invalid requests (unknown tag / "
+            "member, malformed or out-of-range index, too-short or unencodable values, misaligned BOOL-array writes, bit writes on structures) yield "
+            "falsy Tags with text and leave the other results untouched; several bits of one word merge into one read-modify-write whose result "
+            "fans out; builders put every request id in exactly one packet (C04); no exception escapes read / write on these lists",
+            "end-to-end contracts over symbolic replies (pyvc + z3)", "DESIGN.md 3 (C03), 9"),
+    "C05": ("proof", "symbol-list entry parsing is proved against the 1756-PM020 entry layout for all field values (with / without the external-access "
+            "byte), truncated entries raise ResponseError; paging continues at last instance + 1 and the result is the concatenation of the pages "
+            "(2 pages in the quick tier, 3 entries over 2 pages in the thorough tier); _create_tag is proved for all symbol-type / software-control "
+            "bits on 0-3 dimensions; user-tag isolation is checked on a catalogue of symbol-name kinds against spec.user_visible; fragmented template "
+            "reads reassemble for all chunk sizes with the right offsets and remaining sizes; tags_json is JSON-typed on the representative database. "
+            "NOT covered: _parse_template_data / member-info parsing of arbitrary templates (string splitting on NUL-separated names is outside the "
+            "engine; only indirectly through the representative database)",
+            "contracts against the documented reply layouts (pyvc + z3)", "DESIGN.md 3 (C05), 9"),
+    "C10": ("proof", "typestate contracts: open, a connected operation from 'session only', close from every state of the driver invariant, "
+            "__enter__ / __exit__ are each proved -- under every target policy (session granted / refused, large Forward Open accepted / refused, "
+            "standard refused) and with a transport fault at ANY send / receive index (symbolic fault position, every call forks) -- to raise "
+            "only library exceptions, to send nothing on a connection before RegisterSession and a successful Forward Open (large first, then "
+            "standard with size 500), and to leave the state the next contract starts from; close always ends in the initial state and, "
+            "without fault, sends Forward Close (iff connected) then UnRegisterSession (iff registered). The composition over call histories is the "
+            "standard invariant argument (DESIGN.md 9), not an enumeration", "typestate contracts with symbolic fault injection (pyvc + z3)",
+            "DESIGN.md 3 (C10), 9"),
+})
+
 if __name__ == "__main__":
     main()
